@@ -772,6 +772,12 @@ func (n *RegexNode) eliminateEndingBacktracking() {
 			// an Atomic one if its grandparent is already Atomic.
 			// e.g. [xyz](?:abc|def) => [xyz](?>abc|def)
 
+			// A balancing group fails on exit when the group it pops is not captured, which
+			// backtracks into its body: the body is not at the end of anything.
+			if node.T == NtCapture && node.N != -1 {
+				break
+			}
+
 			// validate grandparent isn't atomic
 			existingChild := node.Children[len(node.Children)-1]
 			if (existingChild.T == NtAlternate || existingChild.T == NtBackRefCond ||
